@@ -814,7 +814,7 @@ func (r *runningStep) processInput(input executeInput) {
 		}
 		outputData = map[string]any{
 			"data":     dataMap,
-			"messages": errors,
+			"errors":   errors,
 		}
 	} else {
 		r.currentStage = StageIDOutputs
